@@ -350,6 +350,26 @@ func runC10(c *Ctx) {
 	// ---------- R10.6 what was persisted is what the store keeps serving
 	c.Import(runC19, "R19.3", "pkg/resource.Finalizers)", "R10.6", "E3", "Finalizers.Add/Remove write only to storage created in the same call: an update whose persist step failed (built on a copy of the stored resource) cannot alter the in-memory resource that stays in place", 2)
 
+
+	// ---------- error discipline (E8)
+	errDisciplineFor(c, "C10")
+
+	// ---------- R10.8 Load visits everything
+	c.Rule("R10.8", "E1", "bolt Load: the read transaction reports success only after every bucket and record was visited — no `return nil` leaves a loop from the middle of its body (an empty bucket or a skipped record must not end the load)", 1)
+
+	if f := p.Method(pkgBolt, "NamespacedBackingStore", "Load"); c.NeedFunc("R10.8", f, "bolt Load") {
+		for _, g := range append([]*ssa.Function{f}, AllClosures(f)...) {
+			early := earlySuccessExits(g)
+			detail := ""
+
+			if len(early) > 0 {
+				detail = fmt.Sprintf("success return at %s is reached from inside a loop body, skipping the rest of the iteration space", p.Pos(early[0].Pos()))
+			}
+
+			c.Check(len(early) == 0, "R10.8", FuncName(g)+" :: no success return from the middle of a loop", fpos(g), "loops are left towards success only through their own exit test", detail)
+		}
+	}
+
 }
 
 func loadGate(c *Ctx, rule string) {
@@ -590,4 +610,84 @@ func (p *Program) sharedBytesOrigin(v ssa.Value) string {
 	}
 
 	return walk(v, 0)
+}
+
+// earlySuccessExits lists the `return …, nil` instructions of f that are reachable from a block of a
+// natural loop other than its header without passing the header again: the loop is abandoned with a
+// success result before its own exit test said the iteration space is exhausted.
+func earlySuccessExits(f *ssa.Function) []ssa.Instruction {
+	n := f.Signature.Results().Len()
+	if n == 0 || !isErrorType(f.Signature.Results().At(n-1).Type()) || len(f.Blocks) == 0 {
+		return nil
+	}
+
+	succRet := ReturnsNilConst(n - 1)
+
+	var out []ssa.Instruction
+
+	seenRet := map[ssa.Instruction]bool{}
+
+	for _, u := range f.Blocks {
+		for _, h := range u.Succs {
+			if !dominates(h, u) {
+				continue
+			}
+
+			// natural loop of back edge u -> h
+			body := map[*ssa.BasicBlock]bool{h: true}
+			stack := []*ssa.BasicBlock{u}
+
+			for len(stack) > 0 {
+				b := stack[len(stack)-1]
+				stack = stack[:len(stack)-1]
+
+				if body[b] {
+					continue
+				}
+
+				body[b] = true
+				stack = append(stack, b.Preds...)
+			}
+
+			// exits from non-header body blocks
+			for b := range body {
+				if b == h {
+					continue
+				}
+
+				for _, s := range b.Succs {
+					if body[s] {
+						continue
+					}
+
+					// from s, is a success return reachable without re-entering the loop?
+					seen := map[*ssa.BasicBlock]bool{}
+					work := []*ssa.BasicBlock{s}
+
+					for len(work) > 0 {
+						x := work[len(work)-1]
+						work = work[:len(work)-1]
+
+						if seen[x] || body[x] {
+							continue
+						}
+
+						seen[x] = true
+
+						if len(x.Instrs) > 0 {
+							last := x.Instrs[len(x.Instrs)-1]
+							if succRet(last) && !seenRet[last] {
+								seenRet[last] = true
+								out = append(out, last)
+							}
+						}
+
+						work = append(work, x.Succs...)
+					}
+				}
+			}
+		}
+	}
+
+	return out
 }
